@@ -278,6 +278,46 @@ theorem getEnv_last_append (ops : List EnvOp) (base : List (Str × Str)) (n : St
   simp only [applyOp]
   cases lookup (getEnv ops base) n <;> rfl
 
+/-! ### test dependencies against build.ninja -/
+
+theorem checkPrereq_iff (us : List TestUse) (ts : List TargetFiles) (prereq : List Str) :
+    checkPrereq us ts prereq = true ↔ AgreesPrereq us ts prereq := sameSetB_iff _ _
+
+theorem checkCmdCovered_iff (us : List TestUse) (ts : List TargetFiles) :
+    checkCmdCovered us ts = true ↔ CmdCovered us ts := by
+  unfold checkCmdCovered CmdCovered
+  simp only [List.all_eq_true, Bool.or_eq_true, Bool.not_eq_true', decide_eq_false_iff_not, decide_eq_true_eq]
+  constructor
+  · intro h u hu p hp t ht hpt
+    rcases h u hu p hp t ht with h' | h'
+    · exact absurd hpt h'
+    · exact h'
+  · intro h u hu p hp t ht
+    by_cases hpt : p ∈ t.files
+    · exact Or.inr (h u hu p hp t ht hpt)
+    · exact Or.inl hpt
+
+/-- the checker of the independent witness for `depends` (prerequisites named by build.ninja, built files on the
+command line) decides `AgreesTestDeps` -/
+theorem checkTestDeps_iff (us : List TestUse) (ts : List TargetFiles) (prereq : List Str) :
+    checkTestDeps us ts prereq = true ↔ AgreesTestDeps us ts prereq := by
+  unfold checkTestDeps AgreesTestDeps
+  rw [Bool.and_eq_true, checkPrereq_iff, checkCmdCovered_iff]
+
+/-- the prerequisites are a set: their order in the phony statement is irrelevant -/
+theorem agreesPrereq_perm (us : List TestUse) (ts : List TargetFiles) {p p' : List Str} (h : p.Perm p') :
+    AgreesPrereq us ts p ↔ AgreesPrereq us ts p' := SameSet.perm_right h
+
+/-- agreement means: a prerequisite of `meson test` in build.ninja is the first output of a target some test lists -/
+theorem agreesPrereq_prereq_listed {us : List TestUse} {ts : List TargetFiles} {prereq : List Str}
+    (h : AgreesPrereq us ts prereq) {x : Str} (hx : x ∈ prereq) :
+    ∃ u ∈ us, ∃ d ∈ u.depends, firstOutput ts d = some x := by
+  have hm := (h x).2 hx
+  unfold dependsOutputs at hm
+  simp only [List.mem_filterMap, List.mem_flatMap] at hm
+  obtain ⟨d, ⟨u, hu, hd⟩, hf⟩ := hm
+  exact ⟨u, hu, d, hd, hf⟩
+
 /-! ### install -/
 
 /-- the checker evaluated on intro-install_plan.json and install.dat decides `AgreesPlan` -/
@@ -469,6 +509,16 @@ example : AgreesTests [it] [ser] [s "app@exe", s "gen@cus"] := (checkTests_iff _
 example : ¬ AgreesTests [{ it with depends := [s "app@exe"] }] [ser] [s "app@exe", s "gen@cus"] :=
   fun h => absurd ((checkTests_iff _ _ _).2 h) (by decide)
 example : ¬ AgreesTests [it] [ser] [s "app@exe"] := fun h => absurd ((checkTests_iff _ _ _).2 h) (by decide)
+
+private def tfs : List TargetFiles := [⟨s "app@exe", [s "/b/app"]⟩, ⟨s "gen@cus", [s "/b/gen.c", s "/b/gen.h"]⟩]
+example : AgreesTestDeps [⟨[s "app@exe", s "gen@cus"], [s "/b/app", s "--x", s "/b/gen.h"]⟩] tfs [s "/b/gen.c", s "/b/app"] :=
+  (checkTestDeps_iff _ _ _).1 (by decide)
+/-- the indexed output on the command line, its target not among `depends` -/
+example : ¬ AgreesTestDeps [⟨[s "app@exe"], [s "/b/app", s "/b/gen.h"]⟩] tfs [s "/b/gen.c", s "/b/app"] :=
+  fun h => absurd ((checkTestDeps_iff _ _ _).2 h) (by decide)
+/-- a prerequisite of build.ninja that no test lists -/
+example : ¬ AgreesTestDeps [⟨[s "app@exe"], [s "/b/app"]⟩] tfs [s "/b/gen.c", s "/b/app"] :=
+  fun h => absurd ((checkTestDeps_iff _ _ _).2 h) (by decide)
 
 private def dirs : List (Str × Str) := [(s "bindir", s "bin"), (s "includedir", s "include"), (s "datadir", s "share")]
 private def recs : List InstRec :=
